@@ -557,11 +557,12 @@ def plan(ctx, dirs):
             elif quick:
                 if kind == "info":
                     cmds = ["info", "replay"] if dr.name == "args" else []
-                elif dr.name == "tasks" and kind == "sym":
-                    cmds = ["replay", "dump"]
-                elif kind in ("map", "sym", "task"):
-                    cmds = ["replay", "report", "dump", "chrome", "info"] if dr.name == "args" else \
-                        ["replay", "graph", "chrome"]
+                elif dr.name == "tasks":
+                    cmds = {"sym": ["replay"], "map": ["replay", "chrome"], "task": ["replay", "chrome"]}.get(kind, cmds)
+                elif kind == "task":
+                    cmds = ["replay", "report", "dump", "chrome", "info"]
+                elif kind in ("map", "sym"):
+                    cmds = ["replay", "report", "dump", "chrome"]
             for c in cmds:
                 jobs.append((dr, fname, None, c))
                 for k in range(len(data) + 1):
@@ -812,8 +813,9 @@ def check(ctx, runner, dirs, jobs, kf, t_build):
         "evaluations": stats["runs"],
         "distinct_nontrivial": len(distinct),
         "rule": "exhaustive: every truncation length 0..size of every file (and the removal of each file) of "
-                "%d synthesized directories x the commands listed in `plan` (quick: all 6 on the args directory's "
-                "dat/task/map/sym, info+replay on info cuts, replay/report/dump on the .dat files of one random "
+                "%d synthesized directories x the commands listed in `plan` (quick: all 6 on every .dat of the two "
+                "fixed directories, 4-5 commands on the args directory's task/map/sym, 1-2 on the tasks directory's, "
+                "info+replay on info cuts, replay/report/dump on the .dat files of one random "
                 "directory drawn from the seed; thorough: all 6 commands everywhere + 6 random directories); "
                 "distinct = distinct (dir, file, cmd, exit, sanitizer, stdout hash, diagnostic, model result)" % len(dirs),
         "cut_points": stats["cuts"], "monitor_failures_on_impl": stats["monitor_fail"],
